@@ -596,6 +596,22 @@ func (in *Interp) addPC(t *term.Term) {
 	in.domAdd(t)
 }
 
+// sizeAtLeast reports whether the term has at least n nodes (as a tree).
+func sizeAtLeast(t *term.Term, n int) bool {
+	var walk func(t *term.Term)
+	walk = func(t *term.Term) {
+		if n <= 0 {
+			return
+		}
+		n--
+		for _, a := range t.Args {
+			walk(a)
+		}
+	}
+	walk(t)
+	return n <= 0
+}
+
 // canonByte rewrites a path-condition conjunct over a single 8-bit variable
 // into a union of value ranges computed from its 256-entry truth table. The
 // result is equivalent; it replaces deep ite/and/or nests (table lookups with
@@ -605,13 +621,7 @@ func (in *Interp) canonByte(t *term.Term) *term.Term {
 	if t.MV || v == nil || v.W != 8 {
 		return t
 	}
-	switch t.Op {
-	case term.OpAnd, term.OpOr, term.OpIte:
-	case term.OpNot:
-		if o := t.Args[0].Op; o != term.OpAnd && o != term.OpOr && o != term.OpIte {
-			return t
-		}
-	default:
+	if !sizeAtLeast(t, 12) {
 		return t
 	}
 	var set [256]bool
